@@ -1,8 +1,30 @@
 (* C09 — conditionals and format selectors include or elide exactly their scope. *)
 From Coq Require Import List NArith Bool String.
 Import ListNotations.
-Require Import St Loop Doc.
+Require Import St Ctl Loop Doc IfProofs.
 Open Scope string_scope.
+
+(* False branch, for every conditional block, every nesting, every body, every recursive entry pb, every format:
+   when the condition of a top-level #if evaluates to false (the ignore depth becomes 1), processing the #if line,
+   a body in which #if / #; are balanced, and the matching #; leaves the control state unchanged (no process started,
+   no file included) and the rendering state equal to what it was before the #if line -- output written, paragraph buffer,
+   scopes, counters, variables, definitions, the previous-macro register included -- except for the dispatch registers
+   (overwritten when the next block is dispatched) and the diagnostics.  Hypotheses: we are not already ignoring or
+   recording a definition, and #if has not been redefined as a user macro. *)
+Theorem C09_false_branch : forall pb a l body n2 a2 l2 c s,
+  let b := BMacro (R "#if") a l in
+  ifdepth s = 0%nat -> udef s = None -> elided s = false -> panicked s = None ->
+  (inl s = true \/ assoc (R "#if") (umacros s) = None) ->
+  ifdepth (macro_if_start (set_regs b s)) = 1%nat ->
+  bal body -> is_name n2 "#;" = true ->
+  exists s', walk pb (b :: body ++ [BMacro n2 a2 l2]) (c, s) = (c, s') /\ s' =c= s /\ panicked s' = None.
+Proof. exact false_conditional_is_absent. Qed.
+(* inside an ignored region nothing but #if / #; is looked at, whatever the blocks are *)
+Theorem C09_ignored_region : forall pb body, bal body -> forall c s, (0 < ifdepth s)%nat -> panicked s = None ->
+  exists s', walk pb body (c, s) = (c, s') /\ s' =c= s /\ panicked s' = None.
+Proof. exact ignored_region. Qed.
+Print Assumptions C09_false_branch.
+Print Assumptions C09_ignored_region.
 Definition same_output (f a b : string) : bool := str_eqb (out_of (run_doc f 0 a)) (out_of (run_doc f 0 b)).
 (* a false conditional with a nested one, between a link and the end of markup (the mom PrevMacro case, D10) *)
 Example C09_examples : forallb (fun f => same_output f ".Bm
